@@ -159,6 +159,15 @@ def gen(tier):
     yield {'k': 'col', 'expr': "coalesce(ext, ext, 'zz')", 'fn': 'coalesce-empty-two', 'cmp': 'eq'}
     for fn in ('hex', 'bin', 'oct', 'abs', 'sqrt', 'year', 'month', 'day', 'dow'):
         yield {'k': 'meta', 'expr': '%s(%s)' % (fn, 'modified' if fn in ('year', 'month', 'day', 'dow') else 'size'), 'fn': fn}
+    # ---- two calls of the same function in one query that differ only in a later argument or in a sign
+    for a, b in (('substr(name, 3)', 'substr(name, -3)'), ('substr(name, 2, 1)', 'substr(name, 2, 2)'), ('substr(name, 2)', 'substr(name, 2, 1)'),
+                 ("replace(name, 'a', 'b')", "replace(name, 'a', 'c')"), ("replace(name, 'a', 'X')", "replace(name, 'e', 'X')"),
+                 ("concat(name, 'x')", "concat(name, 'y')"), ("concat_ws('-', name, 'x')", "concat_ws('+', name, 'x')"),
+                 ('power(2, -1)', 'power(2, 1)'), ('power(size, 2)', 'power(size, 3)'), ('least(size, 5)', 'least(size, -5)'),
+                 ('greatest(size, 5)', 'greatest(size, 50)'), ("coalesce(ext, 'a')", "coalesce(ext, 'b')"), ('abs(-3)', 'abs(3)'),
+                 ('log(8, 2)', 'log(8, 10)'), ('format_size(size, \'%.0\')', 'format_size(size, \'%.2\')'), ('substr(name, -1)', 'substr(name, 1)')):
+        yield {'k': 'pair', 'a': a, 'b': b, 'fn': 'two-calls-in-one-query'}
+        yield {'k': 'pair', 'a': b, 'b': a, 'fn': 'two-calls-in-one-query'}
     # ---- compositions
     for f in COMPOSE:
         for g in COMPOSE:
@@ -309,6 +318,22 @@ def eval_group(env, group, tier):
                              {'query': query, 'row': bad[0], 'got': bad[1], 'expected': str(bad[2])})
                     else:
                         r.update(status='ok', sig=tuple(v for _, v in sorted(rows))[:6])
+            elif k == 'pair':
+                # differential: the value of each call next to the other equals its value alone
+                q2 = 'name, %s, %s from . into list' % (c['a'], c['b'])
+                o = env.run([q2], cwd=root)
+                oa = env.run(['name, %s from . into list' % c['a']], cwd=root)
+                ob = env.run(['name, %s from . into list' % c['b']], cwd=root)
+                r2, ra, rb = o.rows(3), oa.rows(2), ob.rows(2)
+                if o.rc != 0 or oa.rc != 0 or ob.rc != 0 or not r2 or not ra or not rb:
+                    viol(c['fn'] + ':status', dict(o.brief(), query=q2))
+                else:
+                    da, db = dict(ra), dict(rb)
+                    bad = [(n, x, y, da[n], db[n]) for n, x, y in r2 if x != da[n] or y != db[n]]
+                    if bad:
+                        viol(c['fn'], {'query': q2, 'row': bad[0][0], 'got': list(bad[0][1:3]), 'alone': list(bad[0][3:5])})
+                    else:
+                        r.update(status='ok', sig=tuple(r2[0][1:]))
             else:
                 query = 'name, %s from . into list' % c['expr']
                 o = env.run([query], cwd=root)
